@@ -32,6 +32,9 @@ def render(results, fmt, via, lang):
     try:
         if via == 'to_string':
             return ('ok', P.to_string(results, fmt))
+        if isinstance(via, str) and via.startswith('flat:'):
+            # the documented single-sentence form: a flat list of ScoredTree
+            return ('ok', P.to_string(results[int(via[5:]) % len(results)], fmt))
         per_tree = {'auto': P.auto_of, 'auto_extended': P.auto_extended_of, 'conll': P.conll_of,
                     'deriv': P.deriv_of, 'ja': P.ja_of, 'ptb': P.ptb_of}
         if fmt in per_tree:
@@ -168,7 +171,10 @@ class C18(ParserSessionProp):
                 hist.append({'op': 'set_language', 'lang': cur})
             else:
                 fmt = rng.choice(FORMATS + ['jigg_xml', 'xml'])
-                hist.append({'op': 'render', 'format': fmt, 'via': rng.choice(['to_string', 'to_string', 'encoder'])})
+                via = rng.choice(['to_string', 'to_string', 'encoder', 'flat'])
+                if via == 'flat':
+                    via = f'flat:{rng.randrange(12)}'
+                hist.append({'op': 'render', 'format': fmt, 'via': via})
         spec['history'] = hist
         spec['start_lang'] = lang
         # results as a user may hold them: n-best lists re-ranked / hand-assembled in another order
